@@ -43,6 +43,40 @@ AMBIENT = {
     "std::fs::read": ("tz::timezone::TimeZoneSettings::<'_>::DEFAULT_READ_FILE_FN", "documented default file reader (injectable callback)"),
 }
 
+# The clock may be read by any crate function, whatever it is called and wherever it lives, as long as the only public
+# functions from which it can be reached are the documented "current time" entry points (public API, so stable names).
+CLOCK_APIS = ("std::time::SystemTime::now", "std::time::SystemTime::duration_since", "std::time::SystemTimeError::duration")
+CLOCK_ENTRY = ("tz::datetime::UtcDateTime::now", "tz::datetime::DateTime::now", "tz::timezone::TimeZone::find_current_local_time_type")
+
+
+def public_callers(facts, own):
+    """Public crate functions from which `own` is reachable through direct calls or function values (closures count
+    as their enclosing function)."""
+    crate = facts.d["config"]["crate"]
+    rev = {}
+    for owner, b, t in iter_calls(facts):
+        f = t["f"]
+        if f["k"] != "item":
+            continue
+        r = f.get("resolved") or f["declared"]
+        if r.get("local"):
+            rev.setdefault(norm_name(strip_closure(r["def"])), set()).add(norm_name(strip_closure(owner)))
+    for owner, path, how in fn_mentions(facts):
+        if crate_of_path(path) == crate:
+            rev.setdefault(norm_name(strip_closure(path)), set()).add(norm_name(strip_closure(owner)))
+    public = {norm_name(i["name"]) for i in facts.instances if i.get("reachable") and not i.get("closure")}
+    seen, work, roots = {own}, [own], set()
+    while work:
+        x = work.pop()
+        if x in public:
+            roots.add(x)
+        for c in rev.get(x, ()):
+            if c not in seen:
+                seen.add(c)
+                work.append(c)
+    return roots
+
+
 # std items that are plain value plumbing (no ambient state).
 STD_PURE_PREFIX = [
     "std::error::",  # Error trait plumbing, kept for older layouts where it lived in std
@@ -154,6 +188,7 @@ def check_effects(run, facts, cfgname, allow_ambient=True):
     n_fnptr = 0
     n_virtual = 0
     ambient_seen = {}
+    clock_roots = {}
     # capability fn-pointer types: fn-pointer-typed fields of crate ADTs that are reachable from outside
     cap_fnptr = set()
     for a in facts.adts:
@@ -262,10 +297,18 @@ def check_effects(run, facts, cfgname, allow_ambient=True):
             ok = True
         elif cls == "ambient":
             allowed = norm_name(AMBIENT[path][0])
-            ok = allow_ambient and own == allowed
             ambient_seen.setdefault(path, set()).add(own)
-            if not ok and key not in seen_keys:
-                run.finding("FX-EXTERN", key, "ambient std API %s called from %s; only %s may call it" % (path, own, allowed), where)
+            if path in CLOCK_APIS:
+                if own not in clock_roots:
+                    clock_roots[own] = public_callers(facts, own)
+                extra = sorted(clock_roots[own] - {norm_name(x) for x in CLOCK_ENTRY})
+                ok = allow_ambient and not extra
+                if not ok and key not in seen_keys:
+                    run.finding("FX-EXTERN", key, "the clock (%s) is read in %s, which can be reached from public function(s) %s; only %s are documented to read the clock" % (path, own, extra or "(ambient access not allowed in this configuration)", ", ".join(CLOCK_ENTRY)), where)
+            else:
+                ok = allow_ambient and own == allowed
+                if not ok and key not in seen_keys:
+                    run.finding("FX-EXTERN", key, "ambient std API %s called from %s; only %s may call it" % (path, own, allowed), where)
         elif cls == "deny":
             ok = False
             if key not in seen_keys:
@@ -298,6 +341,9 @@ def check_effects(run, facts, cfgname, allow_ambient=True):
         own = norm_name(strip_closure(owner))
         key = "%s|%s|%s" % (cfgname, own, path)
         if cls == "ambient" and allow_ambient and own == norm_name(AMBIENT[path][0]):
+            run.obligation(True)
+            continue
+        if cls == "ambient" and allow_ambient and path in CLOCK_APIS and not (public_callers(facts, own) - {norm_name(x) for x in CLOCK_ENTRY}):
             run.obligation(True)
             continue
         if key in seen_keys:
